@@ -25,6 +25,34 @@ package types
 
 //@ property C06 := (MsgCreateDeployment).GetSigners#*, (MsgDepositDeployment).GetSigners#*, (MsgUpdateDeployment).GetSigners#*, (MsgCloseDeployment).GetSigners#*, (MsgCloseGroup).GetSigners#*, (MsgPauseGroup).GetSigners#*, (MsgStartGroup).GetSigners#*
 
+// ---- C08: placement requirements ------------------------------------------------
+//@ import audittypes "github.com/ovrclk/akash/x/audit/types"
+// some entry of provider[1:] is signed by auditor v and covers every required attribute
+//@ spec signedCover(req: []atypes.Attribute, provider: []audittypes.Provider, v: str): bool =
+//@        exists k: int :: 1 <= k && k < len(provider) && provider[k].Auditor == v && subsetAttrs(req, provider[k].Attributes)
+// provider[0] holds the self-declared attributes, provider[1:] one entry per auditor (distinct auditors: one store record per owner+auditor)
+//@ func (GroupSpec).MatchRequirements
+//@   requires len(provider) >= 1
+//@   requires forall k1: int, k2: int :: 1 <= k1 && k1 < k2 && k2 < len(provider) ==> provider[k1].Auditor != provider[k2].Auditor
+//@   ensures [self] len(g.Requirements.SignedBy.AnyOf) == 0 && len(g.Requirements.SignedBy.AllOf) == 0 ==>
+//@              (result <==> subsetAttrs(g.Requirements.Attributes, provider[0].Attributes))
+//@   ensures [audited] len(g.Requirements.SignedBy.AnyOf) != 0 || len(g.Requirements.SignedBy.AllOf) != 0 ==>
+//@              (result <==> (len(provider) >= 2
+//@                 && (forall a: int :: 0 <= a && a < len(g.Requirements.SignedBy.AllOf) ==> signedCover(g.Requirements.Attributes, provider, g.Requirements.SignedBy.AllOf[a]))
+//@                 && (len(g.Requirements.SignedBy.AnyOf) == 0 ||
+//@                     (exists a: int :: 0 <= a && a < len(g.Requirements.SignedBy.AnyOf) && signedCover(g.Requirements.Attributes, provider, g.Requirements.SignedBy.AnyOf[a])))))
+//@   loop 1 invariant 0 <= iter && iter <= len(provider) - 1 && existingRequirements != nil && fresh(existingRequirements)
+//@   loop 1 invariant forall k: int :: 1 <= k && k < iter + 1 ==> has(existingRequirements, provider[k].Auditor) && existingRequirements[provider[k].Auditor] == provider[k].Attributes
+//@   loop 1 invariant forall v: str :: has(existingRequirements, v) ==> (exists k: int :: 1 <= k && k < iter + 1 && provider[k].Auditor == v)
+//@   loop 2 invariant 0 <= iter && iter <= len(g.Requirements.SignedBy.AllOf)
+//@   loop 2 invariant forall a: int :: 0 <= a && a < iter ==> signedCover(g.Requirements.Attributes, provider, g.Requirements.SignedBy.AllOf[a])
+//@   loop 3 invariant 0 <= iter && iter <= len(g.Requirements.SignedBy.AnyOf)
+//@   loop 3 invariant forall a: int :: 0 <= a && a < iter ==> !signedCover(g.Requirements.Attributes, provider, g.Requirements.SignedBy.AnyOf[a])
+//@ func (GroupSpec).MatchAttributes
+//@   ensures result <==> subsetAttrs(g.Requirements.Attributes, attr)
+
+//@ property C08 := (GroupSpec).MatchRequirements#*, (GroupSpec).MatchAttributes#*
+
 // ---- C19: admission limits ---------------------------------------------------
 //@ import atypes "github.com/ovrclk/akash/types"
 //@ bind atypes.ResourceGroup => GroupSpec
